@@ -15,7 +15,7 @@ EncMB(m)   == BE16(MBWord(m))
 DecMBWord(w) == IF w >= 32768 THEN [r |-> TRUE, ecn |-> Bits(w, 13, 2), ato |-> w % 8192]
                 ELSE [r |-> FALSE, ecn |-> 0, ato |-> 0]
 \* metric block unit (C16)
-DecMBUnit(b) == IF Len(b) # 2 THEN Rej ELSE Ok(DecMBWord(U16At(b, 0)))
+DecMBUnit(b) == IF Len(b) < 2 THEN Rej ELSE IF Len(b) > 2 THEN NA ELSE Ok(DecMBWord(U16At(b, 0)))
 
 NumField(D, n)   == IF "CCFB_NUM" \in D THEN Max(n - 1, 0) ELSE n
 NumBlocks(D, f)  == IF "CCFB_NUM" \in D THEN (IF f = 0 THEN 0 ELSE f + 1) ELSE f
